@@ -777,7 +777,8 @@ white space, blocks bracketed): `json` (names collected, `sort.Strings`, named l
 numbered loop from 0 to `len(indices)/2` skipping empty values, every value through `WriteInferred`),
 `buildSpecialKeyJson` (indexed arguments first, then the sorted keys, all through `WriteString`),
 `parseKeyValue` / `parseKeyValuesIntoMap`, `MarshalStringMapInferred` (no sort), `WriteInferred` (numeric test,
-then the two length-guarded `EqualFold`s, then string), `WriteInt`, `escape` and `createGroupNameTable`.
+then the two length-guarded `EqualFold`s, then string), `WriteInt`, `writeKey` (separator, quote, ESCAPED key),
+`WriteString` (ESCAPED value between quotes), `WriteLiteral`, `escape` and `createGroupNameTable`.
 `Model/C16.lean` was written against these; a reordered loop, a dropped sort, a changed bound or a changed
 call in /repo breaks this theorem. -/
 theorem control_skeletons_are_source :
@@ -805,6 +806,12 @@ theorem control_skeletons_are_source :
        "if len(val)==5&&strings.EqualFold(val,\"false\"){", "s.WriteLiteral(key,\"false\")", "}", "else{",
        "s.WriteString(key,val)", "}", "}", "}"] ∧
     Gen.C16.writeIntOutline = ["s.writeKey(key)", "s.sb.WriteString(strconv.Itoa(val))"] ∧
+    Gen.C16.writeKeyOutline =
+      ["if s.keyCount>0{", "s.sb.WriteString(\",\")", "}", "s.sb.WriteRune('\"')", "s.sb.WriteString(escape(key))",
+       "s.sb.WriteString(\"\\\":\")", "s.keyCount++"] ∧
+    Gen.C16.writeStringOutline =
+      ["s.writeKey(key)", "s.sb.WriteRune('\"')", "s.sb.WriteString(escape(val))", "s.sb.WriteRune('\"')"] ∧
+    Gen.C16.writeLiteralOutline = ["s.writeKey(key)", "s.sb.WriteString(literal)"] ∧
     Gen.C16.escapeOutline =
       ["varsbstrings.Builder", "hasMapped:=false", "for i:=0;i<len(s);i++{", "c:=s[i]",
        "if int(c)<len(escapeLookup)&&escapeLookup[c]!=\"\"{", "if !hasMapped{", "sb.Grow(len(s)+5)",
